@@ -109,8 +109,8 @@ class MXCSRRegister:
         # IE = int(bits[15])  # Invalid Operation Flag
         return f"{type(self).__name__}[{FZ=} {RN=} {DAZ=} {DE=}]"
 
-    def __call__(self, FZ=None, DAZ=None, RN=None):
-
+    def _desired_state(self, FZ=None, DAZ=None, RN=None):
+        """Return the current register state with requested bits changed."""
         current = self.get_mxcsr()
         new_value = current.value
 
@@ -143,22 +143,27 @@ class MXCSRRegister:
             else:
                 new_value &= ~(1 << 6)
 
-        new = ctypes.c_uint32(new_value)
+        return ctypes.c_uint32(new_value)
+
+    def __call__(self, FZ=None, DAZ=None, RN=None):
 
         class context(contextlib.ContextDecorator):
-            def __init__(self, register, desired_state):
+            def __init__(self, register, **request):
                 self.register = register
-                self.saved_state = None
-                self.desired_state = desired_state
+                # a stack, to support re-entering the same context
+                # instance (nested use, recursive decorated functions)
+                self.saved_states = []
+                self.request = request
 
             def __enter__(self):
-                assert self.saved_state is None
-                self.saved_state = self.register.get_mxcsr()
-                self.register.set_mxcsr(self.desired_state)
+                # the desired state is derived from the register state
+                # at the time of entering so that only the requested
+                # bits are changed
+                self.saved_states.append(self.register.get_mxcsr())
+                self.register.set_mxcsr(self.register._desired_state(**self.request))
 
             def __exit__(self, exc_type, exc, exc_tb):
-                assert self.saved_state is not None
-                self.register.set_mxcsr(self.saved_state)
-                self.saved_state = None
+                assert self.saved_states
+                self.register.set_mxcsr(self.saved_states.pop())
 
-        return context(self, new)
+        return context(self, FZ=FZ, DAZ=DAZ, RN=RN)
